@@ -205,3 +205,56 @@ Example C19_example_runtime :
   | None => False
   end.
 Proof. exact runtime_example. Qed.
+
+(* ------------------------------------------------------------------ oracle soundness *)
+(* The executable oracles [c19_ok_json] / [c19_ok_runtime] (Model/JsonPipeOk.v) are what the
+   run-time check applies to what the Go functions returned.  They accept the MODEL's own
+   observation of the same case, for every input and every schedule covered by C19_json /
+   C19_runtime.  The observations are built as ocaml/c19_run.ml builds them from the harness's
+   output (definitions in Proofs/OracleC19.v):
+   [obs_lines parse limit inp]: one entry per raw line of the input (the harness's own split at
+     \n, [split_lines]): (raw length, the document the library makes of the line without its
+     trailing \r; None if the line reaches the token limit or the library refuses);
+   [obs_res_ok r]: the call returned a nil error; [obs_decoded inflate r]: the documents the
+     reader delivers from the returned bytes;
+   [obs_files inflate s]: per file prefix.N whether it decodes, and the id of each of its samples;
+     the number of generated samples is collectCount [r_id s] (or unknown). *)
+From FV.Proofs Require Import OracleC19.
+
+Section C19_oracle.
+Variable deflate : bytes -> bytes.
+Variable inflate : bytes -> option bytes.
+Hypothesis inflate_deflate : forall p, inflate (deflate p) = Some p.
+
+(* JSON: under the hypotheses of C19_json (every input, token limit, chunk size, every schedule
+   without early timer/cancellation that ends the call) the oracle holds of the outcome, and a
+   nil error comes with bytes the reader decodes without error (the driver's second conjunct). *)
+Theorem C19_oracle_json_sound : forall parse limit inp rerr ls e n evs s r,
+  1 <= n < 2 ^ 31 ->
+  scan limit inp rerr = (ls, e) -> docs_ok KDyn (parsed parse ls) ->
+  let init := j_init true n (source parse false limit inp rerr) in
+  j_run deflate init evs = Some s -> j_res s = Some r -> j_early deflate true true init evs = false ->
+  c19_ok_json limit (obs_lines parse limit inp) rerr (obs_res_ok r) (obs_decoded inflate r) = true /\
+  (forall out, r = JOk out -> decode_ftdc inflate None out <> None).
+Proof. exact (c19_json_oracle_sound deflate inflate inflate_deflate). Qed.
+
+(* runtime: under the hypotheses of C19_runtime and C19_runtime_ids, for every event list after
+   which the call has returned: it returned nil, and the oracle holds of the files that exist -
+   with the generated count known or unknown. *)
+Theorem C19_oracle_runtime_sound : forall gen,
+  (forall i t, doc_wf (gen i t)) ->
+  (forall i t j u, skeleton_doc (gen i t) = skeleton_doc (gen j u)) ->
+  (forall i t, 0 <= i < 2 ^ 63 -> sample_id (strip_doc (gen i t)) = Some i) ->
+  forall o evs s,
+  rt_valid o = true -> ro_samples o < 2 ^ 31 ->
+  Z.of_nat (length (collect_times evs)) <= 2 ^ 63 ->
+  r_run deflate gen (r_init o) evs = Some s ->
+  r_res s <> None ->
+  r_res s = Some RDone /\
+  c19_ok_runtime (obs_files inflate s) (Some (r_id s)) = true /\
+  c19_ok_runtime (obs_files inflate s) None = true.
+Proof. exact (c19_runtime_oracle_sound deflate inflate inflate_deflate). Qed.
+
+End C19_oracle.
+Print Assumptions C19_oracle_json_sound.
+Print Assumptions C19_oracle_runtime_sound.
